@@ -38,18 +38,21 @@ _m(
         "truth tolerance on the full-scan-scaled loss, J = number of patterns, N = detector pixels, I = mean pattern "
         "intensity: l2_amplitude J*(4e-11 + 2*N*1e-9/I); l1_amplitude J*(2e-5*sqrt(N/I) + 2*N*sqrt(1e-9)/I); l2_intensity "
         "J*4e-12*I*(peak/mean pixel ratio); l1_intensity J*1e-4.  The N*1e-9 and N*sqrt(1e-9) terms are exact bounds (x2) for "
-        "the documented sqrt(I + 1e-9) regulariser; the others are float32 round-off scalings with >= 25x head-room over the "
-        "largest value seen in ~4000 clean-tree cases (ratios measured/tolerance: l2_amplitude 0.006, l2_intensity 0.005, "
-        "l1_amplitude 0.04, l1_intensity 0.03); every batch of the drawn partition must meet the same bound",
+        "the documented sqrt(I + 1e-9) regulariser; the others are float32 round-off scalings, multiplied by f = 1 + phi/10 (l1) or f^2 (l2) "
+        "where phi is the largest Fresnel phase (rad) summed over the slice gaps, because the library evaluates the propagator "
+        "phase in float32 (relative amplitude error ~2*eps32*phi; phi reaches 160 rad in the generated domain); >= 20x "
+        "head-room over the largest value seen in ~6000 clean-tree cases (measured/tolerance: l2_amplitude 0.008, "
+        "l2_intensity 0.011, l1_amplitude 0.05, l1_intensity 0.044); every batch of the drawn partition must meet the same "
+        "bound",
         "perturbed points: the library loss must equal the loss *definition* (sum over the batch and detector of "
         "|sqrt(pred+1e-9) - sqrt(meas)|^p or |pred - meas|^p, divided by the batch fraction B/J and by the mean pattern "
-        "intensity, as documented in error_estimate) evaluated on the reference simulator's prediction to 2e-4 relative "
-        "(clean tree <= 2e-6), must exceed 100 x the truth loss and truth loss + 100 x tolerance; asserted only when the "
+        "intensity, as documented in error_estimate) evaluated on the reference simulator's prediction to 2e-4*f relative "
+        "(clean tree <= 4.3e-6), must exceed 100 x the truth loss and truth loss + 100 x tolerance; asserted only when the "
         "reference loss exceeds 1000 x tolerance (otherwise the drawn perturbation is invisible in exact arithmetic and the "
-        "sub-check is counted as 'not visible', ~2 % of the cases); batch-fraction weighted sum of batch losses == full-scan "
+        "sub-check is counted as 'not visible', ~5 % of the cases); batch-fraction weighted sum of batch losses == full-scan "
         "loss to 1e-4 relative (clean tree 3e-7)",
         "stationarity (l2 losses): autograd gradient norm w.r.t. the object parameters at the truth <= 1e-3 x the norm at the "
-        "perturbed object, same for the probe parameters and the perturbed probe (clean tree <= 3e-5); l1 losses are not "
+        "perturbed object (x f), same for the probe parameters and the perturbed probe (clean tree <= 3.5e-5); l1 losses are not "
         "differentiable at a zero residual and are not asserted",
         "mean pattern intensities are >= 100 so that the 1e-9 regulariser stays far below a pixel's amplitude; absorbing "
         "objects, tilted probes, learned descan, rotated/transposed scans, detector masks, the poisson loss and "
